@@ -90,11 +90,11 @@ def _to_triplets(
 
 def _to_len_bucket(seqs):
     ans = {}
-    for seq in seqs:
+    for index, seq in enumerate(seqs):
         _len = len(seq)
         if _len not in ans:
             ans[_len] = []
-        ans[_len].append(seq)
+        ans[_len].append(index)
     return ans
 
 
@@ -151,10 +151,11 @@ def kdtree(
     )
 
     if custom_distance == "hamming":
-        buckets, ans = _to_len_bucket(seqs), []
-        for bucket in buckets.values():
-            ans += _kdtree_leven(
-                bucket,
+        seqs_arr = ensure_numpy(seqs)
+        buckets, ans = _to_len_bucket(seqs_arr), []
+        for indices in buckets.values():
+            bucket_triplets = _kdtree_leven(
+                seqs_arr[indices],
                 max_edits,
                 max_returns,
                 n_cpu,
@@ -163,6 +164,7 @@ def kdtree(
                 "triplets",
                 compression,
             )
+            ans += [(indices[i], indices[j], dist) for i, j, dist in bucket_triplets]
         return _make_output(ans, output_type, seqs)
     return _kdtree_leven(
         seqs,
